@@ -7,6 +7,7 @@ package ergo
 
 import (
 	"encoding/json"
+	"errors"
 	"fmt"
 	"sort"
 	"strings"
@@ -692,3 +693,78 @@ func isReachable(graph *Graph, start, target string, visited map[string]bool) bo
 	}
 	return false
 }
+
+// hasWaitCycle reports whether the effective waits-for relation contains a
+// cycle. A task waits for the tasks it depends on and - through its epic's
+// dependencies - for every child of every epic its epic depends on. A cycle in
+// this relation means none of the tasks on it can ever become ready, although
+// neither the task graph nor the epic graph has a cycle of its own (for
+// example: T1 in E1 depends on T2 in E2 while E2 depends on E1).
+func hasWaitCycle(graph *Graph) bool {
+	children := map[string][]string{}
+	for id, task := range graph.Tasks {
+		if !task.IsEpic && task.EpicID != "" {
+			children[task.EpicID] = append(children[task.EpicID], id)
+		}
+	}
+	// Node naming: "t:<id>" a task; "in:<id>" what an epic's members wait for;
+	// "out:<id>" the completion of an epic (all of its children).
+	next := func(node string) []string {
+		var out []string
+		switch {
+		case strings.HasPrefix(node, "t:"):
+			id := node[2:]
+			for dep := range graph.Deps[id] {
+				if other, ok := graph.Tasks[dep]; ok && !other.IsEpic {
+					out = append(out, "t:"+dep)
+				}
+			}
+			if task := graph.Tasks[id]; task != nil && task.EpicID != "" {
+				if epic, ok := graph.Tasks[task.EpicID]; ok && epic.IsEpic {
+					out = append(out, "in:"+task.EpicID)
+				}
+			}
+		case strings.HasPrefix(node, "in:"):
+			for dep := range graph.Deps[node[3:]] {
+				if other, ok := graph.Tasks[dep]; ok && other.IsEpic {
+					out = append(out, "out:"+dep)
+				}
+			}
+		case strings.HasPrefix(node, "out:"):
+			for _, child := range children[node[4:]] {
+				out = append(out, "t:"+child)
+			}
+		}
+		return out
+	}
+	const (
+		active = 1
+		done   = 2
+	)
+	state := map[string]int{}
+	var visit func(node string) bool
+	visit = func(node string) bool {
+		switch state[node] {
+		case active:
+			return true
+		case done:
+			return false
+		}
+		state[node] = active
+		for _, n := range next(node) {
+			if visit(n) {
+				return true
+			}
+		}
+		state[node] = done
+		return false
+	}
+	for id, task := range graph.Tasks {
+		if !task.IsEpic && visit("t:"+id) {
+			return true
+		}
+	}
+	return false
+}
+
+var errWaitCycle = errors.New("dependency would create a cycle (through epic dependencies)")
